@@ -18,7 +18,7 @@ from ..world import Host
 
 ID = 'C17'
 LEVEL = 'exploration'
-TIERS = {'quick': 10000, 'thorough': 500000}
+TIERS = {'quick': 10000, 'thorough': 250000}
 RULE = ('seeded histories of 8-40 parse/eval calls driving a cached parser (cache kind per run: dict, prewarmed, LRU '
         'bound 1-4, always-evicting, write-dropping, re-entering; evict_key/evict_all faults between calls) and an '
         'uncached twin parser with the same calls; sources drawn Zipf-style from a pool of 4-12 programs incl. failing '
